@@ -354,11 +354,21 @@ def nest_async(outer, pos, inner_expr):
     raise ValueError(pos)
 
 
-def nest_expr(outer, pos, inner_expr):
-    """`inner_expr` evaluated inside macro `outer` at position pos: operand closure body / capture block / handler"""
+def nest_expr(outer, pos, inner_expr, ty="OI"):
+    """`inner_expr` evaluated inside macro `outer` at position pos: operand closure body / capture block / handler /
+    directly as a branch (`init`) / directly as the operand of `<|` (`opnd`).  In the two direct positions the expression
+    written in front of the nested invocation (`rt::sem::first`) panics if a callback of the nested one ran before it."""
     if outer in ASYNC_OUTERS:
         return nest_async(outer, pos, inner_expr)
     t = outer.startswith("try_")
+    if pos in ("init", "opnd"):
+        assert outer in ("join", "try_join") and ty in ("OI", "RI")
+        if pos == "init":
+            front = "rt::sem::first(Some(0i64))" if ty == "OI" else "rt::sem::first(Ok::<i64, i64>(0i64))"
+            e = f"{outer}! {{ {front}, {inner_expr} }}"
+            return f"{e}.map(|p| p.1)" if t else f"{e}.1"
+        front = "rt::sem::first(None::<i64>)" if ty == "OI" else "rt::sem::first(Err::<i64, i64>(0i64))"
+        return f"{outer}! {{ {front} <| {inner_expr} }}"
     if pos == "body":
         e = f"{outer}! {{ Some(0i64) |> move |_z: i64| {inner_expr}, Some(1i64) }}"
         return f"{e}.map(|p| p.0).unwrap()" if t else f"{e}.0.unwrap()"
@@ -376,10 +386,10 @@ def macro_expr(chain, variant, mchain):
     """variant: a macro name, or `nest|outer|inner|pos`, or `nest3|a|b|c|pos1|pos2`"""
     if variant.startswith("nest|"):
         _, outer, inner, pos = variant.split("|")
-        return nest_expr(outer, pos, simple_expr(chain, inner, mchain))
+        return nest_expr(outer, pos, simple_expr(chain, inner, mchain), chain["ty"])
     if variant.startswith("nest3|"):
         _, a, b, c, p1, p2 = variant.split("|")
-        return nest_expr(a, p1, nest_expr(b, p2, simple_expr(chain, c, mchain)))
+        return nest_expr(a, p1, nest_expr(b, p2, simple_expr(chain, c, mchain), chain["ty"]), chain["ty"])
     return simple_expr(chain, variant, mchain)
 
 
